@@ -241,6 +241,34 @@ theorem dict_request_called_or_client_fault (cfg : Hier.Cfg) (R : Registry) (hR 
     | fault => simp only [q, codecOfRes, hx, Codec.fault.injEq] at hcd; subst hcd; exact h
     | crash e' => exact absurd hx (C10hier.hier_server_no_crash cfg R hR name ns base fields o hwf pd e')
 
+/-! ### SOAP envelopes -/
+
+/-- every measured envelope shape — Header absent / empty / one / two declared entries / an undeclared entry / text only,
+    Body absent / empty / text / comment / two children / a child of another namespace / a Fault element / a valid call,
+    Envelope in the protocol's namespace, in that of the other SOAP version, in neither; Soap11 and Soap12 — is dispatched or
+    refused with a Client fault -/
+theorem facts10_envelopes : envTableOk facts10 = true := by decide +kernel
+
+/-- with the measured row as the dispatch stage: one call and a normal answer, or a Client fault and no call — never a Server
+    fault, never an escaping exception, whatever the Header holds when the Body holds no request -/
+theorem soap_envelope_called_or_client_fault (k : EnvKey) :
+    let q : Req := { proto := if k.soap12 then .soap12 else .soap11, parse := .doc, dispatch := (facts10.env k).codec, deser := .ok }
+    runBase facts10 q = .ok 1 ∨ ∃ c, runBase facts10 q = .fault c 0 ∧ isClient c = true := by
+  intro q
+  have hdoc : createInDocument facts10 q = none := rfl
+  have hg := env_good facts10 facts10_envelopes k
+  cases hd : facts10.env k with
+  | called => exact Or.inl (runBase_valid facts10 q hdoc (by simp [q, hd, EnvDecision.codec]) rfl rfl)
+  | clientFault c =>
+    refine Or.inr ⟨c, runBase_dispatch_fault facts10 facts10_faults_kept.1 q c hdoc (by simp [q, hd, EnvDecision.codec]), ?_⟩
+    rw [hd] at hg; exact hg
+  | serverFault c => rw [hd] at hg; simp [EnvDecision.good] at hg
+  | escape e => rw [hd] at hg; simp [EnvDecision.good] at hg
+
+/-- non-vacuity: a Header with an entry and an empty Body is a row of the table, and it is a Client fault -/
+example : ∃ c, facts10.env ⟨false, .own, .one, .empty⟩ = .clientFault c := ⟨"Client.SoapError", by decide +kernel⟩
+example : facts10.env ⟨true, .own, .two, .valid⟩ = .called := by decide +kernel
+
 /-! ### the leaf parsers -/
 
 /-- the leaf parsers of the shared vocabulary (integers, booleans, strings, date, time, dateTime, duration, the three
